@@ -979,9 +979,9 @@ class Canon:
         if isinstance(st, (ast.For, ast.AsyncFor)):
             it = self.expr(st.iter)
             tgt = self.expr_store(st.target)
-            return [("for", tgt, it, self.block(st.body), self.block(st.orelse))]
+            return [("for", tgt, it, _continue_to_else(self.block(st.body)), self.block(st.orelse))]
         if isinstance(st, ast.While):
-            return [("while", self.expr(st.test), self.block(st.body), self.block(st.orelse))]
+            return [("while", self.expr(st.test), _continue_to_else(self.block(st.body)), self.block(st.orelse))]
         if isinstance(st, ast.Assert):
             return [("assert", self.expr(st.test))]
         if isinstance(st, ast.Raise):
@@ -1638,7 +1638,7 @@ class Normalizer:
         def fresh():
             nums[0] += 1
             return ("v", 500 + nums[0])
-        block = _index_loops(_param_versions(_if_convert(_ret_peephole(_query_loops(_unfold_list_comps(raw_block, fresh))))))
+        block = _index_loops(_param_versions(_if_convert(_ret_peephole(_query_loops(_pair_iteration(_unfold_list_comps(raw_block, fresh)))))))
         defs = single_defs(block, keep_identity)
         for _ in range(6):
             if not defs:
@@ -1752,6 +1752,69 @@ def _if_convert(block: tuple) -> tuple:
     return tuple(out)
 
 
+def _continue_to_else(body: tuple) -> tuple:
+    """in a loop body ``if c: A; continue`` followed by the rest R of the body is ``if c: A else: R`` (and a ``continue``
+    that ends the body is nothing): guard-clause and if/else spellings of one iteration have one form"""
+    body = tuple(body)
+    while body and body[-1] == ("continue",):
+        body = body[:-1]
+    for k, st in enumerate(body):
+        if isinstance(st, tuple) and len(st) == 4 and st[0] == "if" and st[2] and not st[3] and st[2][-1] == ("continue",):
+            rest = _continue_to_else(body[k + 1:])
+            if not rest:
+                new = ("if", st[1], tuple(st[2][:-1]), ()) if st[2][:-1] else None
+                return body[:k] + ((new,) if new else ())
+            return body[:k] + (mk_if(st[1], tuple(st[2][:-1]), rest),)
+    return body
+
+
+def _pair_iteration(block: tuple) -> tuple:
+    """``a, b = pair_call(); for x in [a, b]: ...``  ==  ``for x in pair_call(): ...`` (a and b used nowhere else), and a
+    local holding the iterable / the test of the very next loop / conditional, used nowhere else, is looked through"""
+    def uses(x, v):
+        n = 0
+        if isinstance(x, tuple):
+            if x == v:
+                return 1
+            for y in x:
+                n += uses(y, v)
+        return n
+
+    def rec(b):
+        out = []
+        for st in b:
+            if isinstance(st, tuple) and st:
+                if st[0] == "if" and len(st) == 4:
+                    st = ("if", st[1], rec(st[2]), rec(st[3]))
+                elif st[0] == "for" and len(st) == 5:
+                    st = ("for", st[1], st[2], rec(st[3]), rec(st[4]))
+                elif st[0] == "while" and len(st) == 4:
+                    st = ("while", st[1], rec(st[2]), rec(st[3]))
+                # for x in [v5, v6] with v5 = proj(X, 0, 2), v6 = proj(X, 1, 2) just before
+                if st[0] == "for" and len(st) == 5 and isinstance(st[2], tuple) and st[2][:1] == ("list",) and len(st[2][1]) == 2 and len(out) >= 2:
+                    a, b_ = st[2][1]
+                    d1, d2 = out[-2], out[-1]
+                    if all(isinstance(d, tuple) and len(d) == 3 and d[0] == "set" for d in (d1, d2)) and d1[1] == a and d2[1] == b_ \
+                            and isinstance(d1[2], tuple) and isinstance(d2[2], tuple) and d1[2][:1] == d2[2][:1] == ("proj",) \
+                            and d1[2][1] == d2[2][1] and (d1[2][2], d1[2][3], d2[2][2], d2[2][3]) == (0, 2, 1, 2) \
+                            and uses(whole, a) == 2 and uses(whole, b_) == 2:
+                        out = out[:-2]
+                        st = ("for", st[1], d1[2][1], st[3], st[4])
+                # v = e ; for ... in f(v) / if g(v): ...   with v used only there
+                if st[0] in ("for", "if") and out and isinstance(out[-1], tuple) and len(out[-1]) == 3 and out[-1][0] == "set" \
+                        and isinstance(out[-1][1], tuple) and out[-1][1][:1] == ("v",):
+                    v, e = out[-1][1], out[-1][2]
+                    head = st[2] if st[0] == "for" else st[1]
+                    if uses(whole, v) == 2 and uses(head, v) == 1:
+                        out = out[:-1]
+                        head2 = Sigma(raw_subst={v: e}).apply(head)
+                        st = ("for", st[1], head2, st[3], st[4]) if st[0] == "for" else mk_if(head2, st[2], st[3])
+            out.append(st)
+        return tuple(out)
+    whole = block
+    return rec(block)
+
+
 def _query_loops(block: tuple) -> tuple:
     """a search loop that answers with constants -- ``for v in it: if c: return True`` followed by ``return False`` -- is
     ``return any(c for v in it)`` (and the dual is ``all``)"""
@@ -1839,6 +1902,14 @@ def _index_loops(block: tuple) -> tuple:
             return st
         args = it[2]
         lo, hi = (k_num(0), args[0]) if len(args) == 1 else ((args[0], args[1]) if len(args) == 2 else (None, None))
+        upper = K_NONE
+        if hi is not None and isinstance(hi, tuple) and hi[:1] == ("poly",):
+            # len(L) - k  (k a positive integer): the slice stops k elements before the end
+            ph = to_poly(hi)
+            lens = [a for a in ph.atoms() if isinstance(a, tuple) and a[:2] == ("c", ("g", "len")) and len(a[2]) == 1]
+            if len(lens) == 1 and len(ph.t) == 2 and ph.t.get(((lens[0], 1),)) == 1 and ph.const_value() < 0 and ph.const_value().denominator == 1:
+                upper = k_num(ph.const_value())
+                hi = lens[0]
         if hi is None or not (isinstance(hi, tuple) and hi[:2] == ("c", ("g", "len")) and len(hi[2]) == 1):
             return st
         seq = hi[2][0]
@@ -1851,7 +1922,7 @@ def _index_loops(block: tuple) -> tuple:
                and not (isinstance(x[1] if x[0] != "aug" else x[2], tuple) and contains(x[1] if x[0] != "aug" else x[2], elem))
                for x in atoms_of(body, lambda y: y[0] in ("set", "aug", "del", "mset") and len(y) >= 3)):
             return st
-        it2 = seq if lo == k_num(0) else ("s", seq, ("slice", lo, K_NONE, K_NONE))
+        it2 = seq if (lo == k_num(0) and upper == K_NONE) else ("s", seq, ("slice", lo if lo != k_num(0) else K_NONE, upper, K_NONE))
         return ("for", var, it2, Sigma(raw_subst={elem: var}).apply(body), st[4])
     out = []
     for st in block:
